@@ -33,6 +33,8 @@ class StreamV:
         self.pending_at = set()   # read positions at which the first read attempt finds no data yet (Poll::Pending once)
         self.on_write = None      # optional callback(ip, stream, data) after each write_all
         self.on_read = None       # optional callback(ip, stream) before each read operation
+        self.write_failed = False
+        self.writes_fail_from = None   # read position from which the peer is gone for good: every later write / flush fails
 
     def __repr__(self):
         return "Stream(%s pos=%d/%d out=%d)" % (self.name, self.pos, len(self.inbound), len(self.out))
@@ -128,6 +130,9 @@ def do_io(ip, fut):
         if st.fail_writes and ip.choose(2, 'write_fault') == 1:
             st.failed = True
             return err(ip, io_error(ip, 'InjectedWriteFault'))
+        if st.writes_fail_from is not None and st.pos >= st.writes_fail_from:
+            st.write_failed = True
+            return err(ip, io_error(ip, 'BrokenPipe'))
         st.out.extend(data)
         st.write_calls.append(data)
         if st.on_write is not None:
@@ -140,6 +145,8 @@ def do_io(ip, fut):
         if st.fail_writes and ip.choose(2, 'flush_fault') == 1:
             st.failed = True
             return err(ip, io_error(ip, 'InjectedFlushFault'))
+        if st.writes_fail_from is not None and st.pos >= st.writes_fail_from:
+            return err(ip, io_error(ip, 'BrokenPipe'))
         st.flushed = len(st.out)
         return ok(ip, unit())
     raise Inconclusive("io op " + op)
